@@ -612,7 +612,7 @@ class TrenchColumn:
                 Trench(normalize_polygon(block), delta_floor=self.delta_floor, safe_inner_turns=self.safe_inner_turns)
             )
 
-        for index in sorted(listcast(remove), reverse=True):
+        for index in sorted(set(listcast(remove)), reverse=True):
             del self._trench_list[index]
 
 
